@@ -314,7 +314,7 @@ def ps_stream(rng, es, pes_max, pts_mode, mtu, hdr_every_key=True, stuffing=0):
             data += c13.ps_pack_header(stuffing=stuffing)
             if first or (fr["key"] and hdr_every_key):
                 data += c13.ps_system_header() + c13.ps_psm(entries)
-            payload = annexb(fr["nals"], es.get("sc", b"\x00\x00\x00\x01")) + es.get("tz", b"")
+            payload = es.get("lead", b"") + annexb(fr["nals"], es.get("sc", b"\x00\x00\x00\x01")) + es.get("tz", b"")
             sid = 0xe0
         else:
             if first:
@@ -1140,8 +1140,8 @@ def gen_cases(tier, rng):
             for pes, pts in ((65000, "first"), (20, "all"), (30, "none")):
                 pk = ps_stream(rng, es, pes, pts, 1400)
                 yield Case("c07.ps 1024 %s" % ",".join(hex_tok(x) for x in pk), cls="ps-gate")
-            # 3-byte start codes (the unpacker reads the NAL type at offset 4), trailing zero bytes, pack header stuffing
-            # cut by an RTP boundary (the buffer is reset): outside the property's domain, correspondence only
+            # 3-byte start codes, trailing zero bytes, pack header stuffing cut by an RTP boundary in front of the gate
+            # (correspondence only here; the grid has the oracle'd cases)
             pk = ps_stream(rng, dict(es, sc=b"\x00\x00\x01"), 65000, "first", 1400)
             yield Case("c07.ps 1024 %s" % ",".join(hex_tok(x) for x in pk), cls="ps-startcode3")
             pk = ps_stream(rng, dict(es, tz=b"\x00\x00"), 65000, "first", 1400)
@@ -1149,6 +1149,12 @@ def gen_cases(tier, rng):
             pk = ps_stream(rng, es, 65000, "first", 16, stuffing=5)
             yield Case("c07.ps 1024 %s" % ",".join(hex_tok(x) for x in pk), cls="ps-stuffing-split")
             yield Case("c07.e2e_ps 1024 %s" % ",".join(hex_tok(x) for x in ps_stream(rng, dict(es, sc=b"\x00\x00\x01"), 40, "all", 60)), cls="ps-startcode3")
+            # an empty unit (a start code directly followed by the next one) in front of every frame: the gate sees a packet
+            # that is nothing but a start code (correspondence only)
+            for lead in (b"\x00\x00\x01", b"\x00\x00\x00\x01", b"\x00\x00\x00\x00\x01"):
+                for sc in (b"\x00\x00\x01", b"\x00\x00\x00\x01"):
+                    pk = ps_stream(rng, dict(es, sc=sc, lead=lead), 65000, "first", 1400)
+                    yield Case("c07.ps 1024 %s" % ",".join(hex_tok(x) for x in pk), cls="ps-empty-unit")
     # customize API: dispose, FeedRtmpMsg pass-through, options changed mid-stream (correspondence only)
     yield Case("c07.cust O:1:1,C:1210,P:97:0:0102,R:A:5:af0199,R:V:6:1701000000,D,P:97:23:0304,R:A:7:af0100,C:1210", cls="cust-api")
     yield Case("c07.cust P:96:0:0000000165,O:2:2,P:96:40:0000000165,P:96:80:000000016501,P:97:0:fff15080017ffc0102030405060708", cls="cust-api")
